@@ -1,5 +1,5 @@
 # replay of a bounded stand-in violation (C16): re-run native/c16_states.py
 import sys
-print('fock n=3 pure=False: wigner(2) on a 9 x 6 grid has shape (9, 6), the other representations return (6, 9)')
+print('n=2 pure=False cat: quad_expectation(0,0.0) = [-0.02052, 0.67649] on bosonic, [-0.02052, 1.74967] on fock')
 print('REPLAY-VIOLATION')
 sys.exit(1)
